@@ -2,8 +2,9 @@
 # seam_audit.sh — informational; NOT a check for any property, never prints a
 # VIOLATION line, registered nowhere in MANIFEST.json.
 #
-# Purpose: DESIGN.md answers "not applicable" for 18 of the 19 properties because,
-# outside the fmt::Write sink behind Display (C15, ./check C15), the library has no
+# Purpose: DESIGN.md answers "not applicable" for 17 of the 19 properties because,
+# outside the fmt::Write sink behind Display (C15, ./check C15) and the serde
+# Serializer / Deserializer behind the derived impls (C17, ./check C17), the library has no
 # schedule, clock, I/O, fault or shared-mutable-state surface for a deterministic
 # simulator to own. That verdict is conditional on facts about
 # the tree. This script re-derives those facts from the *current working tree*
@@ -108,7 +109,7 @@ fi
 
 echo "== verdict ($(( $(date +%s) - t0 )) s)"
 if [ ${#found[@]} -eq 0 ]; then
-  echo "premise of the not-applicable verdicts (DESIGN.md) holds for this tree: no shared mutable state, thread, lock, clock or I/O inside the library; the only caller-supplied stream is the fmt::Write sink behind Display, which is what ./check C15 simulates"
+  echo "premise of the not-applicable verdicts (DESIGN.md) holds for this tree: no shared mutable state, thread, lock, clock or I/O inside the library; the only caller-supplied code that runs inside an operation is the fmt::Write sink behind Display and the serde Serializer / Deserializer behind the derived impls, which is what ./check C15 and ./check C17 simulate"
   echo "SEAMS none"
 else
   echo "premise of the not-applicable verdicts does NOT hold for this tree; revisit DESIGN.md §7 for the properties concerned"
